@@ -304,6 +304,6 @@ func init() {
 		Rule: "inputs: (valid program from a pool covering every construct kind) x (separator) x (tail that begins like a literal / call / index / block / operator and breaks off), plus every token string of <= 3 tokens, under family-on / family-off (thorough: strict) configurations; oracle (differential, no reference needed): Matched+RestInput == input, Matched has no trailing blank, and evaluating Matched alone on a VM in the same prior state with the same die answers gives the same value, variables, st callbacks, number of dice, detail text and executed instruction sequence, with empty rest. Non-trivial = accepted with a non-empty rest; distinct by (input, configuration).",
 		Enumerate: c03Enumerate,
 		Run:       c03Run,
-		Budget:    map[string]time.Duration{"quick": 170 * time.Second, "thorough": 40 * time.Minute},
+		Budget:    map[string]time.Duration{"quick": 400 * time.Second, "thorough": 40 * time.Minute},
 	})
 }
